@@ -17,7 +17,7 @@
      - leaves: every fixed-width integer type, BOOLEAN, NULL round-trip.
      - records: for EVERY schema (a tree of SEQUENCE/SET/explicitly tagged
        records, any legal tags, any nesting, leaves INTEGER of the ten widths,
-       BOOLEAN, NULL) and every value of it, encoding in a mode and decoding
+       BOOLEAN, NULL, OBJECT IDENTIFIER, BIT STRING of at most 999 data octets) and every value of it, encoding in a mode and decoding
        the octets with the schema's typed readers in the same mode - or DER
        output in BER mode - yields the value, consumes exactly the octets and
        leaves the context unchanged, at any position and under any limit
@@ -31,7 +31,7 @@
        of a definite parent, the end-of-contents of an indefinite one or the
        end of the input (C04_optional_schema_roundtrip_in_context,
        C04_optional_schema_roundtrip).
-   PARTIAL: CHOICE fields and the string/OID leaves are not in the schema
+   PARTIAL: CHOICE fields and the octet/character string leaves are not in the schema
    datatype; they are covered by the leaf theorems, by C04_typed_field_read,
    and as a whole by c04.roundtrip (random typed records through the real
    combinators).  Captured / OctetString / wrapped encoders
